@@ -254,6 +254,28 @@ def check(col, prog, tier, profile, fixture=None):
                 col.ok("X1" + sfx, loc, key, "%s; depth max %d, balanced" % ("; ".join(lines), m.maxdepth))
             else:
                 col.violation("X1" + sfx, key, loc, "%s: the x87 block does not compute the specified result: %s" % (b.path, why), {"lines": lines})
+            # ... and the block is the function: no path returns without having executed it (an early return in front of
+            # the block - `if rhs.is_nan() { return self }` - answers from a test of its own, which nothing here judges)
+            if len(asm) == 1:
+                from .. import cfg as _cfg
+                seen_, todo_ = {0}, [0]
+                bypass = None
+                while todo_:
+                    x_ = todo_.pop()
+                    if x_ == bb:
+                        continue
+                    tk_ = b.blocks[x_]["term"]
+                    if tk_["k"] == "return":
+                        bypass = x_
+                        break
+                    for y_ in _cfg.successors(tk_):
+                        if y_ not in seen_:
+                            seen_.add(y_)
+                            todo_.append(y_)
+                if bypass is None:
+                    col.ok("X1" + sfx, loc, key + "|on-every-path", "every return of %s lies behind the block" % b.name, nontrivial=False)
+                else:
+                    col.violation("X1" + sfx, key + "|bypassed", b.loc(bypass), "%s returns on a path that never executes its x87 block: that answer comes from a test written by hand, not from the comparison/selection the block was judged to compute" % b.path)
     # conversions between f64 and f80 are the x87 load/store pair (checked above as X1 blocks); a conversion written as
     # bit manipulation is an algorithm of its own (subnormals, NaN payloads, rounding) that no rule here decides
     for fb in crate.bodies:
